@@ -143,6 +143,21 @@ def run(ctx: Ctx) -> None:
                     if flips:
                         ctx.count("C08.chains_with_flip")
                     ctx.case(("results", str(mode), c["case"]["policy"], min(flips, 3), min(len(results), 3)), nontrivial=flips > 0, sample=dict(info, flips=flips) if idx < 2 and mode == MatchingMode.IOU2D else None)
+                # the same threshold values reused across modes on the same result objects (judgements of one mode
+                # must not leak into another): shared grids, modes in random order
+                coarse_d, fine_d = [0.0, 0.5, 1.0, 2.0, 4.0, 1e6], [0.0, 0.25, 0.5, 0.75, 1.0, 1.5, 2.0, 3.0, 4.0, 1e6]
+                coarse_i, fine_i = [1.0, 0.5, 0.25, 0.0], [1.0, 0.75, 0.5, 0.35, 0.25, 0.1, 0.0]
+                swap = r.random() < 0.5  # grids overlap only partly, so a leaked judgement shows as a lost TP
+                grids = {MatchingMode.CENTERDISTANCE: fine_d if swap else coarse_d, MatchingMode.PLANEDISTANCE: coarse_d if swap else fine_d, MatchingMode.IOU2D: fine_i if swap else coarse_i, MatchingMode.IOU3D: coarse_i if swap else fine_i}
+                order = list(MatchingMode)
+                r.shuffle(order)
+                for mode in order:
+                    info = dict(mode=str(mode), policy=c["case"]["policy"], n_results=len(results), n_gt=len(gts), chain=grids[mode], shared_grid=True)
+                    flips = chain_on_results(ctx, results, gts, mode, grids[mode], info)
+                    ctx.count("C08.chains")
+                    if flips:
+                        ctx.count("C08.chains_with_flip")
+                    ctx.case(("results_grid", str(mode), c["case"]["policy"], min(flips, 3)), nontrivial=flips > 0)
 
         # ---- through the manager: several thresholds at once, frame and scene level ----
         for idx in ctx.indices("manager", 60 if ctx.quick else 2000):
